@@ -104,10 +104,26 @@ PROPS["C05"] = {
     "rule": ("unit = one build-then-delete history, or one recovered crash image. Non-trivial: the history freed at least one indirect block or contained a shrinker-interrupting stop; the crash image contains a half-freed inode. "
              "distinct = FNV hash of the history resp. (program, crash point, variant)."),
     "assumptions": CRASH_ASSUMPTIONS,
-    "required_classes": ["history_that_freed_indirect_blocks", "crash_images_with_half_freed_inode", "recovered_images_emptied_and_counted", "removed_file_with_about_journal_size_blocks"],
+    "required_classes": ["history_that_freed_indirect_blocks", "crash_images_with_half_freed_inode", "recovered_images_with_followup_check", "removed_file_with_about_journal_size_blocks"],
     "units": [
         {"test": "^TestC05Seq$", "quick": {"checks": 40, "shards": 8}, "thorough": {"checks": 600, "shards": 12, "steps": 50}},
         {"test": "^TestC05Crash$", "quick": {"checks": 4, "shards": 2, "procs": 4, "timeout": 600},
+         "thorough": {"checks": 50, "shards": 4, "procs": 4, "timeout": 7200}},
+    ],
+}
+
+PROPS["C12"] = {
+    "level": "fault_enumeration",
+    "technique": "generated block-recycling histories (rapid) with tagged data against the reference model (oracle: only unexpected non-zero bytes count) plus a scan that every free block on the logical disk is zero; the same two oracles on enumerated crash images",
+    "level_text": "Sequential: on a small data region (300-900 blocks, so freed blocks are soon handed out again; restarts reset the allocator cursor) files are filled with recognisable per-write patterns, removed, shrunk to aligned and unaligned sizes, grown again, poked with partial-block writes and writes beyond the end, and read back completely; a READ or whole-tree comparison that shows a non-zero byte where the reference has none (hole, gap, re-grown region, other file's data) is a violation, and every 6th step fsck checks that every block free in the bitmap is all-zero. Crash: every explored image of generated programs (incl. multi-transaction frees) gets the free-block scan, the matched reference state is compared byte-wise, and files are grown over positions that held data earlier in the run and must read zero.",
+    "level_note": "Lost data (zero where bytes were written) and status mismatches are other properties' subjects and only cut the case short. Sampled histories; crash points enumerated per trace (quick <=150, thorough all).",
+    "rule": ("unit = one recycling history or one recovered crash image. Non-trivial: a block number freed earlier in the case is in use again (measured from successive fsck ownership sets), or an unaligned shrink was followed by growth of the same file; crash image: contains a half-freed inode or >=3 directories and an indirect block. "
+             "distinct = FNV hash of the history resp. (program, crash point, variant)."),
+    "assumptions": CRASH_ASSUMPTIONS,
+    "required_classes": ["case_reusing_freed_blocks", "case_unaligned_shrink_then_growth", "fsck_free_block_scans", "crash_images"],
+    "units": [
+        {"test": "^TestC12Seq$", "quick": {"checks": 80, "shards": 8}, "thorough": {"checks": 1200, "shards": 12, "steps": 60}},
+        {"test": "^TestC12Crash$", "quick": {"checks": 4, "shards": 2, "procs": 4, "timeout": 600},
          "thorough": {"checks": 50, "shards": 4, "procs": 4, "timeout": 7200}},
     ],
 }
